@@ -157,7 +157,7 @@ pub fn judge(part: &str, case: &Case, tally: &mut Tally) -> Verdict {
 
 pub fn gen_raw(src: &mut Src, _i: usize) -> Case {
     let big = src.chance(1, 6);
-    super::c01::gen_history(src, big)
+    super::c01::gen_history_x(src, big, false)
 }
 
 pub fn gen_tracked(src: &mut Src, _i: usize) -> Case {
